@@ -259,6 +259,72 @@ Section Parse.
         | None => Err ValueError
         end
     end.
+
+  (* ---- parse_cookie(name, cookies) over a LIST of cookie dicts ----
+     One turn of the loop for a cookie of the requested name: _ver_dec_content raises -> the whole call raises;
+     returns None -> nothing is appended (Ok None); returns content -> the '::' split, one entry appended.
+     Nothing is carried from one turn to the next: the entry of a cookie depends on that cookie alone. *)
+  Definition content : Type := pystr * pystr * pystr.            (* value, type, timestamp *)
+  Definition parse_one (h : handler) (w : wire) : res (option content) :=
+    c <- ver_dec h (regroup h (wsplit w)) ;;
+    match c with
+    | None => Ok None
+    | Some (payload, ts) =>
+        match rsplit1 colon payload with
+        | Some (v, typ) => Ok (Some (v, typ, ts))
+        | None => Err ValueError
+        end
+    end.
+
+  (* Whether a refused cookie makes _ver_dec_content RAISE or return None shows only when several cookies are
+     parsed in one call (a raise refuses the whole list, None only skips the cookie).  For two, three and any
+     other number of parts ver_dec above has the kind right.  For four parts it depends on byte-level facts:
+     base64.b64decode of the iv / ciphertext / tag part raises (binascii.Error, ValueError) on text that is no
+     base64, AESGCM raises ValueError on a nonce outside 8..128 bytes — all before the tag is looked at; only
+     then InvalidTag -> None.  declen text = None (b64decode raises) | Some n (n bytes) is supplied by the
+     driver from the standard library; a blob is the base64 of a cryptographic value and always decodes. *)
+  Variable declen : pystr -> option nat.
+  Definition part_decodes (p : wire) : bool :=
+    match blob_view p with
+    | BV _ => true
+    | _ => match declen (wtext p) with Some _ => true | None => false end
+    end.
+  Definition iv_usable (p : wire) : bool :=
+    match declen (wtext p) with Some n => (8 <=? n)%nat && (n <=? 128)%nat | None => false end.
+  Definition hard_fail (h : handler) (w : wire) : bool :=
+    match h_ek h, regroup h (wsplit w) with
+    | Some _, [_; iv; ct; tg] => negb (iv_usable iv && part_decodes ct && part_decodes tg)
+    | _, _ => false
+    end.
+  (* one turn of the loop, with the kind of refusal *)
+  Definition parse_turn (h : handler) (w : wire) : res (option content) :=
+    match parse_one h w with
+    | Ok None => if hard_fail h w then rejected else Ok None
+    | r => r
+    end.
+
+  (* a cookie dict: _cookie.get("name") (None = no "name" key) and _cookie["value"] *)
+  Definition cookie : Type := option pystr * wire.
+  Definition name_is (name : pystr) (c : cookie) : bool :=
+    match fst c with Some n => str_eqb n name | None => false end.
+
+  Fixpoint parse_loop (h : handler) (name : pystr) (cs : list cookie) : res (list content) :=
+    match cs with
+    | [] => Ok []
+    | c :: r =>
+        if name_is name c then
+          x <- parse_turn h (snd c) ;;
+          rest <- parse_loop h name r ;;
+          Ok (match x with Some e => e :: rest | None => rest end)
+        else parse_loop h name r
+    end.
+
+  (* `if not cookies: return None` *)
+  Definition parse_cookies (h : handler) (name : pystr) (cs : list cookie) : res (option (list content)) :=
+    match cs with
+    | [] => Ok None
+    | _ => l <- parse_loop h name cs ;; Ok (Some l)
+    end.
 End Parse.
 
 (* ---- checkers for generated correspondence case files ---- *)
@@ -294,6 +360,28 @@ Definition chk_parse (c : parse_case) : bool :=
   end.
 Definition is_modelled (c : parse_case) : bool :=
   match parse_model c with Unmodelled => false | _ => true end.
+
+(* parse_cookie with several cookies in one call: (handler, blob texts, requested name, the cookie dicts,
+   base64 facts (dtab: text of a part -> b64decode raises | number of bytes), observed: None = the call raised | Some None = returned None | Some (Some l) = returned the entries l) *)
+Definition dtab := list (pystr * option nat).
+Fixpoint dtab_lookup (tab : dtab) (s : pystr) : option nat :=
+  match tab with
+  | [] => None
+  | (s', n) :: r => if str_eqb s s' then n else dtab_lookup r s
+  end.
+Definition list_case : Type := handler * btab * dtab * pystr * list cookie * option (option (list content)).
+Definition list_model (c : list_case) : res (option (list content)) :=
+  let '(h, tab, dt, name, cs, _) := c in parse_cookies (btab_lookup tab) (dtab_lookup dt) h name cs.
+Definition chk_list (c : list_case) : bool :=
+  let '(_, _, _, _, _, obs) := c in
+  match list_model c, obs with
+  | Ok x, Some y => option_eqb (list_eqb content_eqb) x y
+  | Err _, None => true
+  | Unmodelled, _ => true
+  | _, _ => false
+  end.
+Definition list_is_modelled (c : list_case) : bool :=
+  match list_model c with Unmodelled => false | _ => true end.
 
 Definition chk_rsplit (c : pystr * option (pystr * pystr)) : bool :=
   option_eqb (fun a b => str_eqb (fst a) (fst b) && str_eqb (snd a) (snd b)) (rsplit1 colon (fst c)) (snd c).
